@@ -45,6 +45,10 @@ def strip_generics(ty):
 _PRIMS = {"bool", "u8", "u16", "u32", "u64", "u128", "usize", "i8", "i16", "i32", "i64", "i128", "isize", "char"}
 
 
+ANON = bool(os.environ.get("AVLINT_ANON"))
+_UPVAR_NAME = re.compile(r"\.\^(\d+):[A-Za-z0-9_]+")
+
+
 class Body:
     def __init__(self, d):
         self.d = d
@@ -305,7 +309,12 @@ class Body:
         return self._mb
 
     def lname(self, l):
-        return self.locals[l].get("n")
+        n = self.locals[l].get("n")
+        if ANON and n is not None:
+            # rename-robustness test mode: every user-chosen local/parameter name is replaced by a
+            # positional one, as if the source had been renamed throughout (./check --anon)
+            return "_%s%d" % ("a" if self.locals[l]["k"] == "arg" else "v", l)
+        return n
 
     def lty(self, l):
         return self.locals[l]["ty"]
@@ -342,20 +351,20 @@ class Body:
         self._ecache[key] = ("var", l, self.lname(l))  # cycle guard
         info = self.locals[l]
         if info["k"] == "arg":
-            r = ("arg", l, info.get("n"))
+            r = ("arg", l, self.lname(l))
         elif info["k"] == "var" and info["ty"] in _PRIMS and l in self.mut_borrowed():
             # a scalar user variable whose address is taken mutably (captured by a
             # closure, passed as &mut) can change behind the single visible
             # definition: never inline its initialiser
-            r = ("var", l, info.get("n"))
+            r = ("var", l, self.lname(l))
         else:
             ds = self.defs().get(l, [])
             if depth <= 0 or not ds:
-                r = ("var", l, info.get("n"))
+                r = ("var", l, self.lname(l))
             elif len(ds) == 1:
                 r = self.def_expr(ds[0], depth - 1)
             else:
-                r = ("phi", l, info.get("n"), tuple(self.def_expr(d, min(depth - 1, 4)) for d in ds[:8]))
+                r = ("phi", l, self.lname(l), tuple(self.def_expr(d, min(depth - 1, 4)) for d in ds[:8]))
         self._ecache[key] = r
         return r
 
@@ -756,6 +765,8 @@ class Prog:
             self.manifests[c] = man
             with open(f) as fh:
                 for line in fh:
+                    if ANON and ".^" in line:
+                        line = _UPVAR_NAME.sub(r".^\1", line)
                     d = json.loads(line)
                     k = d["k"]
                     if k == "body":
@@ -812,6 +823,20 @@ class Prog:
             n = norm(f.get(k))
             if n and n in self.nbodies and len(self.nbodies[n]) == 1:
                 return self.nbodies[n][0]
+        return None
+
+    def upvar(self, closure_body, proj):
+        """resolve a captured-variable projection (`.^i:name`) of a closure body to
+        (parent body, expression of the captured operand in the parent); None if unknown"""
+        m = re.match(r"^\.\^(\d+)", proj or "")
+        if not m or not closure_body.parent or closure_body.parent not in self.bodies:
+            return None
+        idx = int(m.group(1))
+        par = self.bodies[closure_body.parent]
+        for bb, i, s in par.assigns():
+            rv = s["rv"]
+            if rv["k"] == "agg" and rv.get("ak") in ("closure", "coroutine") and norm(rv.get("def")) == closure_body.npath and idx < len(rv["ops"]):
+                return par, par.op_expr(rv["ops"][idx], 6)
         return None
 
     def with_closures(self, body):
